@@ -416,11 +416,34 @@ func buildC07src(tier string, fromCamera bool) sim.Scenario {
 					name = fmt.Sprintf("short-packet-%d", k)
 				case 5: // lying sizes inside aggregation / AU-header sections
 					d := append([]byte(nil), tmpl.Data...)
-					if len(d) > 15 {
-						d[13], d[14] = 0xff, byte(tp.Raw())
+					name = "lying-size"
+					if len(d) > 17 {
+						// a size field of an aggregation packet (the first one, or one further in): far too large, zero, or one
+						at := 13
+						if hevc && tmpl.Channel == rtp.ChannelVideo {
+							at = 14
+						}
+						if tmpl == tmplV && tp.Bool() { // the size field of the second unit
+							first := int(d[at])<<8 | int(d[at+1])
+							if at+2+first+2 < len(d) {
+								at += 2 + first
+							}
+						}
+						switch tp.Choose(4) {
+						case 0:
+							d[at], d[at+1] = 0xff, byte(tp.Raw())
+						case 1:
+							d[at], d[at+1] = 0, 0
+							name = "lying-size(zero)"
+						case 2:
+							d[at], d[at+1] = 0, 1
+							name = "lying-size(one)"
+						default:
+							d[at], d[at+1] = 0, byte(2+tp.Choose(3))
+							name = "lying-size(tiny)"
+						}
 					}
 					raw = frame(&rtp.Packet{Channel: tmpl.Channel, Data: d})
-					name = "lying-size"
 				case 6: // RTCP garbage
 					g := make([]byte, tp.Choose(41))
 					for i := range g {
